@@ -429,6 +429,9 @@ def build(spec, world, mode, keep=None):
         return TreeNode(world, spec['id'],
                         [build(x, world, mode, keep)
                          for x in spec.get('children', [])])
+    if t == 'decimal':
+        import decimal
+        return decimal.Decimal(spec['v'])
     if t == 'httpexc':
         import zExceptions
         return getattr(zExceptions, spec['n'])(spec.get('msg', 'm'))
